@@ -55,6 +55,14 @@ def manager_watch(mt, obs):
             return
 
 
+def manager_detect(mt, obs):
+    # one turn of the manager thread's loop on the crash path (real run(): wait, then terminate_broken)
+    item, broken, bpe = mt.wait_result_broken_or_wakeup()
+    if broken:
+        obs.waited(broken)
+        mt.terminate_broken(bpe)
+
+
 def crashing_worker(ptable, me):
     # environment: worker `me` is killed at an arbitrary instant after it was started
     ptable.crash(me)
